@@ -405,6 +405,13 @@ func (ex *Exec) evalInstr(fr *Frame, st *State, ins ssa.Instruction, v ssa.Value
 			}
 			if len(bv.L) == 1 && bv.Loc == nil {
 				st.assume(Eq(UF("closure.fv."+fn.FreeVars[i].Name(), SInt, id), toInt(bv.L[0])))
+				for old, news := range ex.aliasesOf(fn) {
+					for _, nn := range news {
+						if nn == fn.FreeVars[i].Name() {
+							st.assume(Eq(UF("closure.fv."+old, SInt, id), toInt(bv.L[0])))
+						}
+					}
+				}
 			}
 		}
 		return Value{T: x.Type(), L: []*Term{id}, Clo: c}
